@@ -1,7 +1,7 @@
 use std::{
     collections::HashMap,
     fs::{self, File, OpenOptions},
-    io::{self, BufRead, BufReader, BufWriter, Write},
+    io::{self, BufRead, BufReader, BufWriter, Read, Seek, SeekFrom, Write},
     path::{Path, PathBuf},
     sync::Mutex,
 };
@@ -83,6 +83,60 @@ impl EventLog {
 
     pub fn replay_session(&self, session_id: &str) -> io::Result<Vec<Event>> {
         self.replay_stream(StreamKind::Session, session_id)
+    }
+
+    /// Seq of the last frame of a stream in the log, found by scanning the file backwards.
+    ///
+    /// The log is the source of truth for stream numbering; caches can lag it (e.g. after a
+    /// crash between the log append and a cache append). Lines that do not parse (a torn tail)
+    /// are skipped.
+    pub fn last_seq_of_stream(
+        &self,
+        stream_kind: StreamKind,
+        stream_id: &str,
+    ) -> io::Result<Option<u64>> {
+        #[derive(serde::Deserialize)]
+        struct Header {
+            seq: u64,
+            stream_kind: StreamKind,
+            stream_id: String,
+        }
+        const CHUNK_BYTES: u64 = 64 * 1024;
+
+        let matching_seq = |line: &[u8]| -> Option<u64> {
+            if line.is_empty() {
+                return None;
+            }
+            let header: Header = serde_json::from_slice(line).ok()?;
+            (header.stream_kind == stream_kind && header.stream_id == stream_id)
+                .then_some(header.seq)
+        };
+
+        // No append while scanning, so only whole lines are seen.
+        let _writer = self.writer.lock().expect("event log mutex");
+        let mut file = File::open(&self.path)?;
+        let mut pos = file.metadata()?.len();
+        // Start of a line whose beginning lies in an earlier chunk.
+        let mut pending: Vec<u8> = Vec::new();
+        while pos > 0 {
+            let step = pos.min(CHUNK_BYTES);
+            pos -= step;
+            file.seek(SeekFrom::Start(pos))?;
+            let mut chunk = vec![0u8; step as usize];
+            file.read_exact(&mut chunk)?;
+            chunk.extend_from_slice(&pending);
+
+            let mut end = chunk.len();
+            while let Some(nl) = chunk[..end].iter().rposition(|b| *b == b'\n') {
+                if let Some(seq) = matching_seq(&chunk[nl + 1..end]) {
+                    return Ok(Some(seq));
+                }
+                end = nl;
+            }
+            chunk.truncate(end);
+            pending = chunk;
+        }
+        Ok(matching_seq(&pending))
     }
 }
 
